@@ -24,7 +24,7 @@ ID = "C19"
 LEVEL = "exploration"
 EVAL_UNIT = "steps"
 EVAL_UNIT_TEXT = "(input, routine, draw sequence) executions; simulated_runs counts inputs"
-BUDGET = {"quick": 90, "thorough": 900}
+BUDGET = {"quick": 200, "thorough": 900}
 JOB_TIMEOUT = 180
 MINIMISE_S = {"quick": 40, "thorough": 120}
 RULE = ("a case = one routine call on a seeded input (graphs of 4-12 nodes incl. disconnected, complete, empty, planted cliques; seed cliques / "
@@ -53,8 +53,8 @@ def warm(tier):
 
 def batches(tier):
     if tier == "quick":
-        return [{"name": "clique", "runs": 1600, "weight": 3}, {"name": "subgraph", "runs": 900, "weight": 3, "seed_offset": 100000},
-                {"name": "similarity", "runs": 800, "weight": 1, "seed_offset": 200000}]
+        return [{"name": "clique", "runs": 8000, "weight": 3}, {"name": "subgraph", "runs": 4500, "weight": 3, "seed_offset": 100000},
+                {"name": "similarity", "runs": 4000, "weight": 1, "seed_offset": 200000}]
     return [{"name": "clique", "runs": 40000, "weight": 3}, {"name": "subgraph", "runs": 20000, "weight": 3, "seed_offset": 100000},
             {"name": "similarity", "runs": 15000, "weight": 1, "seed_offset": 200000}]
 
